@@ -26,6 +26,10 @@ pub enum UF {
     /// fails with `FunctionIdentifierNotFound(name)` — e.g. a function that evaluates a nested
     /// expression in a restricted context and propagates its error
     NotFound(String),
+    /// fails with a typed library error a builtin of the same name could also raise:
+    /// 0 = wrong argument amount, 1 = fixed-length tuple expected, 2 = division error,
+    /// 3 = VariableIdentifierNotFound("raised")
+    Raise(u8),
 }
 
 impl PartialEq for UF {
@@ -36,6 +40,7 @@ impl PartialEq for UF {
             (UF::Tag(a), UF::Tag(b)) => a == b,
             (UF::Fail(a), UF::Fail(b)) => a == b,
             (UF::NotFound(a), UF::NotFound(b)) => a == b,
+            (UF::Raise(a), UF::Raise(b)) => a == b,
             _ => false,
         }
     }
@@ -49,6 +54,12 @@ impl UF {
             UF::Tag(k) => Ok(RV::Tuple(vec![RV::Int(*k), arg.clone()])),
             UF::Fail(k) => Err(RE::Custom(format!("fail#{}", k))),
             UF::NotFound(n) => Err(RE::FnNotFound(n.clone())),
+            UF::Raise(k) => Err(match k {
+                0 => RE::Arity,
+                1 => RE::Type,
+                2 => RE::Arith,
+                _ => RE::VarNotFound("raised".into()),
+            }),
             UF::IntPlus5 => match arg {
                 RV::Int(i) => Ok(RV::Int(i.wrapping_add(5))),
                 other => Err(RE::Expected(Exp::Int, other.clone())),
